@@ -96,6 +96,13 @@ READ_DOMAIN_LEMMAS = ('a2mRead_nd', 'a2mRead_domain_text', 'a2mRead_domain_digit
                       'wgtTokOk_of_nonneg', 'gsOrderOk_of_hasw')
 
 
+ROUND6_THEOREMS = ('weight_token_wellformed', 'weight_token_value', 'cutoff_token_wellformed', 'cutoff_token_value', 'printed_value_exact',
+                   'printed_value_half_unit', 'weight_token_roundtrip', 'stockholm_seq_order_perm', 'stockholm_gr_order_perm', 'stockholm_seq_order_id',
+                   'stockholm_roundtrip_mention_partial')
+ROUND6_LEMMAS = ('fmtFixed_read', 'fmtFixed_eq', 'wt_line_tokens', 'digitsVal_natDec', 'natDec_length_le', 'decTok_shape', 'fmtF2_fixed', 'fmtF1_fixed',
+                 'stoGsReg_cases', 'regRest_perm', 'regNew_ok', 'permList_id')
+
+
 class C03(Prop):
     id = "C03"
     lean_modules = ["EaselModel.Props.C03", "EaselModel.Msafile.WriteLemmas"]
@@ -106,7 +113,7 @@ class C03(Prop):
         "afa_rewrite_same_text", "afa_rewrite_same_digital",
         "phylip_strtoi32_natDec", "phylips_roundtrip_text", "phylips_roundtrip_digital", "phylips_roundtrip", "phylip_roundtrip_text", "phylip_roundtrip_digital",
         "phylip_roundtrip", "phylips_write_accepted", "phylip_write_accepted", "phylip_rewrite_same_text", "phylip_rewrite_same_digital",
-        "phylip_preserves_names_rows", "phylip_write_deterministic") + ('stockholm_write_deterministic', 'stoDigSymOk_of', 'pfam_roundtrip_plain_text', 'pfam_roundtrip_plain_digital', 'stockholm_roundtrip_plain_text', 'stockholm_roundtrip_plain_digital', 'stockholm_roundtrip_plain', 'stockholm_write_accepted', 'stockholm_preserves_names_rows', 'exSto_plain', 'exSto_writable', 'exStoDna_writable', 'exSto201_writable', 'stockholm_roundtrip_gc_gf', 'exStoAnn_writable', 'stockholm_roundtrip_header', 'cutoff_token_accepted', 'stockholm_rewrite_same', 'stockholm_rewrite_same_text', 'stockholm_rewrite_same_digital') + ('selex_write_deterministic', 'selexDigSymOk_of', 'selex_roundtrip_plain_text', 'selex_roundtrip_plain_digital', 'selex_roundtrip_plain', 'selex_write_accepted', 'selex_write_accepted_digital', 'selex_preserves_names_rows', 'selex_rewrite_same', 'selex_rewrite_same_digital', 'exSlx_plain', 'exSlx_writable', 'exSlxDna_writable', 'a2m_write_deterministic', 'a2mDigSymOk_of', 'a2m_roundtrip_text', 'a2m_roundtrip_digital', 'a2m_roundtrip', 'a2m_write_accepted', 'a2m_write_accepted_digital', 'a2m_rows_text', 'a2m_preserves_names_rows', 'a2m_rows_digital', 'a2m_rewrite_same_text', 'a2m_rewrite_same_digital', 'lt_two_cases', 'exA2m_writable', 'exA2mDna_writable') + ('clustal_write_deterministic', 'cluDigSymOk_of', 'clustal_roundtrip_text', 'clustal_roundtrip_digital', 'clustal_roundtrip', 'clustal_write_accepted', 'clustal_rewrite_same_text', 'clustal_rewrite_same_digital', 'clustal_preserves_names_rows', 'exClu1_writable', 'exClu_writable', 'exCluDna_writable', 'psiblast_write_deterministic', 'psiblast_roundtrip_text', 'psiDigSymOk_of', 'psiblast_roundtrip_digital', 'psiblast_roundtrip', 'psiblast_write_accepted', 'psiblast_rewrite_same_text', 'psiblast_preserves_names_rows', 'exPsi1_writable', 'exPsi_writable', 'exPsiDna_writable') + AUTODETECT_THEOREMS + SELEX_ANN_THEOREMS + A2M_INS_THEOREMS + STO_ANN_THEOREMS + READ_DOMAIN_THEOREMS] + ["EaselModel.Msafile." + t for t in A2M_INS_LEMMAS + READ_DOMAIN_LEMMAS] + [
+        "phylip_preserves_names_rows", "phylip_write_deterministic") + ('stockholm_write_deterministic', 'stoDigSymOk_of', 'pfam_roundtrip_plain_text', 'pfam_roundtrip_plain_digital', 'stockholm_roundtrip_plain_text', 'stockholm_roundtrip_plain_digital', 'stockholm_roundtrip_plain', 'stockholm_write_accepted', 'stockholm_preserves_names_rows', 'exSto_plain', 'exSto_writable', 'exStoDna_writable', 'exSto201_writable', 'stockholm_roundtrip_gc_gf', 'exStoAnn_writable', 'stockholm_roundtrip_header', 'cutoff_token_accepted', 'stockholm_rewrite_same', 'stockholm_rewrite_same_text', 'stockholm_rewrite_same_digital') + ('selex_write_deterministic', 'selexDigSymOk_of', 'selex_roundtrip_plain_text', 'selex_roundtrip_plain_digital', 'selex_roundtrip_plain', 'selex_write_accepted', 'selex_write_accepted_digital', 'selex_preserves_names_rows', 'selex_rewrite_same', 'selex_rewrite_same_digital', 'exSlx_plain', 'exSlx_writable', 'exSlxDna_writable', 'a2m_write_deterministic', 'a2mDigSymOk_of', 'a2m_roundtrip_text', 'a2m_roundtrip_digital', 'a2m_roundtrip', 'a2m_write_accepted', 'a2m_write_accepted_digital', 'a2m_rows_text', 'a2m_preserves_names_rows', 'a2m_rows_digital', 'a2m_rewrite_same_text', 'a2m_rewrite_same_digital', 'lt_two_cases', 'exA2m_writable', 'exA2mDna_writable') + ('clustal_write_deterministic', 'cluDigSymOk_of', 'clustal_roundtrip_text', 'clustal_roundtrip_digital', 'clustal_roundtrip', 'clustal_write_accepted', 'clustal_rewrite_same_text', 'clustal_rewrite_same_digital', 'clustal_preserves_names_rows', 'exClu1_writable', 'exClu_writable', 'exCluDna_writable', 'psiblast_write_deterministic', 'psiblast_roundtrip_text', 'psiDigSymOk_of', 'psiblast_roundtrip_digital', 'psiblast_roundtrip', 'psiblast_write_accepted', 'psiblast_rewrite_same_text', 'psiblast_preserves_names_rows', 'exPsi1_writable', 'exPsi_writable', 'exPsiDna_writable') + AUTODETECT_THEOREMS + SELEX_ANN_THEOREMS + A2M_INS_THEOREMS + STO_ANN_THEOREMS + READ_DOMAIN_THEOREMS + ROUND6_THEOREMS] + ["EaselModel.Msafile." + t for t in A2M_INS_LEMMAS + READ_DOMAIN_LEMMAS + ROUND6_LEMMAS] + [
         "EaselModel.Msafile.afaRead_write", "EaselModel.Msafile.stoRead_write", "EaselModel.Msafile.splitLines_join", "EaselModel.Msafile.afaDigitalWritable_writable",
         "EaselModel.Msafile.guess_stockholmWrite", "EaselModel.Msafile.guess_clustalWrite", "EaselModel.Msafile.guess_afaWrite", "EaselModel.Msafile.guess_a2mWrite", "EaselModel.Msafile.cutsetOf_eq", "EaselModel.Msafile.head_steps", "EaselModel.Msafile.fmtF1_realTok", "EaselModel.Msafile.stockholmWrite_project", "EaselModel.Msafile.phylipWriteW_unset", "EaselModel.Msafile.phylipWriteW_default"] + [
         "EaselModel.Msafile." + t for t in ("stockholmWrite_eq", "stockholmWrite_magic", "blockStarts_length", "blockStarts_lt", "stockholm_blocks", "pfam_blocks",
@@ -261,20 +268,31 @@ class C03(Prop):
     GROW_NSEQ = [15, 16, 17, 18, 31, 32, 33, 34, 63, 64, 65]
     GROW_ALEN = [1, 59, 60, 61, 120, 121, 199, 200, 201, 202, 399, 400, 401, 601]
 
-    def gen_growth(self, rng, fmt, abc, quick):
+    def gen_growth(self, rng, fmt, abc, quick, n=None, L=None, avoid=True):
         """alignments that cross the allocation-growth boundaries of the readers: sequence counts around the doubling of the growable MSA and of the
         per-sequence parse data (16/17, 32/33, 64/65), widths around the writers' wrap (60 / 200 columns) and several blocks, tag / comment / #=GF
         counts around their allocation steps, lines per Stockholm block around 16/32/64 - combined with EVERY annotation kind, each independently
         present and SPARSE (on the first sequences only, the last only, a random subset): parsed and unparsed #=GS, #=GR, #=GC, weights."""
         kind = {"text": rng.choice(["amino", "dna", "rna"]), "amino": "amino", "dna": "dna", "rna": "rna"}[abc]
-        n = rng.choice(self.GROW_NSEQ[:8] if quick and rng.random() < 0.8 else self.GROW_NSEQ)
+        forced = n is not None
+        if n is None: n = rng.choice(self.GROW_NSEQ[:8] if quick and rng.random() < 0.8 else self.GROW_NSEQ)
         sto = fmt in ("stockholm", "pfam")
-        L = rng.choice([201, 202, 400, 401] if (sto and rng.random() < 0.5) else self.GROW_ALEN)
+        if L is None: L = rng.choice([201, 202, 400, 401] if (sto and rng.random() < 0.5) else self.GROW_ALEN)
         if n > 34 and L > 401: L = 401
         gaps = "-" if (abc != "text" or fmt in ("psiblast", "phylip", "phylips", "clustal", "clustallike")) else ("-._~" if sto else "-.")
         a = G.rand_aln(rng, kind, n, L, gapchars=gaps, lower=(abc == "text" and fmt in ("stockholm", "pfam", "afa", "selex", "a2m", "psiblast")),
                        maxname=10 if fmt in ("phylip", "phylips") else 12,
                        namechars="abcdefghijklmnopqrstuvwxyzABCDEFGHIJKLMNOPQRSTUVWXYZ0123456789_|.:+[]()")
+        if forced and fmt in ("phylip", "phylips"):
+            # names that fill the 10-column name field exactly, and names one longer (cut by the writer); distinct in their first 10 characters
+            nc = "abcdefghijklmnopqrstuvwxyzABCDEFGHIJKLMNOPQRSTUVWXYZ0123456789_"
+            seen = set()
+            for i in range(n):
+                if rng.random() < 0.6:
+                    while True:
+                        b = "".join(rng.choice(nc) for _ in range(10))
+                        if b not in seen: break
+                    seen.add(b); a.names[i] = b + (rng.choice(nc) if rng.random() < 0.5 else "")
         if fmt in ("clustal", "clustallike"): a.names = [nm if any(ch not in ".:*" for ch in nm) else "s" + nm for nm in a.names]
         col = lambda chars: "".join(rng.choice(chars) for _ in range(L))
         text = lambda k=12: "".join(rng.choice("abcdefghijklmnopqrstuvwxyz ABC0123456789.,;:()-_") for _ in range(rng.randrange(1, k))).strip() or "x"
@@ -311,12 +329,13 @@ class C03(Prop):
             # known finding C03:stockholm:first-mention-order: sequences are numbered in order of first mention (#=GS lines included), #=GR tags likewise.
             # Stay out of exactly that region: without weights the first #=GS kind written (AC, DE, then the other tags) is made total; the #=GR tags are put
             # in the order of the first sequence that carries them (what the reader's numbering gives anyway).
-            if not a.wgt:
+            # (avoid=False: the "mention" stream goes INTO that region on purpose; there the monitor demands exactly the first-mention permutation)
+            if not a.wgt and avoid:
                 if a.acc: a.acc = [x if x else "filler%d" % i for i, x in enumerate(a.acc)]
                 elif a.desc: a.desc = [x if x else "filler%d" % i for i, x in enumerate(a.desc)]
                 elif a.gs: t, v = a.gs[0]; a.gs[0] = (t, [x if x else "filler%d" % i for i, x in enumerate(v)])
             firstseq = lambda v: next(i for i, x in enumerate(v) if x is not None)
-            a.gr.sort(key=lambda tv: firstseq(tv[1]))
+            if avoid: a.gr.sort(key=lambda tv: firstseq(tv[1]))
         elif fmt == "selex":
             if rng.random() < p: a.ss = sparse(lambda: col("HEC.<>"))
             if rng.random() < p: a.sa = sparse(lambda: col("0123456789"))
@@ -339,8 +358,10 @@ class C03(Prop):
             for abc in ("text", "dna"):
                 c.append({"name": "tiny-%s-%s" % (fmt, abc),
                           "ops": ["rt fmt=%s abc=%s n=2 alen=3 nm=6161,62 sq=414347,412d47" % (fmt, abc)]})
-        c.append({"name": "known-stockholm-partial-gs", "known_key": "C03:stockholm:first-mention-order",
+        c.append({"name": "known-stockholm-partial-gs", "report_mention": True,          # the monitor itself keys the failure (only when the re-read IS the first-mention permutation)
                   "ops": ["rt fmt=stockholm abc=text n=2 alen=3 nm=61,62 sq=414347,412d47 sqdesc=~,666f6f"]})
+        c.append({"name": "known-stockholm-gr-tag-order", "report_mention": True,
+                  "ops": ["rt fmt=stockholm abc=text n=3 alen=3 nm=61,62,63 sq=414347,412d47,414141 sqdesc=~,666f6f,~ gr=7441:~,~,616263/7442:~,616263,~ gs=4f53:~,~,7171"]})
         c.append({"name": "psiblast-O", "ops": ["rt fmt=psiblast abc=amino n=2 alen=4 nm=61,62 sq=4143444f,41434445",
                                                   "rt fmt=psiblast abc=text n=2 alen=4 nm=61,62 sq=4143444f,41436f45"]})
         c.append({"name": "stockholm-uniq-gs", "dup": True,       # weights pin the sequence order (see known finding first-mention-order)
@@ -387,6 +408,31 @@ class C03(Prop):
             stats["nseq_max"] = max(stats["nseq_max"], a.n); stats["alen_max"] = max(stats["alen_max"], a.alen)
             if a.alen > 200: stats["multi_block"] += 1
             out.append({"name": "grow%d-%s-%s" % (i, fmt, abc), "dup": False, "ops": ["rt fmt=%s abc=%s " % (fmt, abc) + " ".join(aln_fields(a))]})
+        # the allocation-size coincidences the property's quantifier names, as a GRID (not left to chance): 16/17/32/33/64/65 sequences x the wrap boundary of the
+        # format (Stockholm 200/201/400/401 columns; the 60-column formats 60/61/120/121; Pfam one block) x sparse annotation; PHYLIP names of width exactly 10 / 11
+        BN = [16, 17, 32, 33, 64, 65]
+        k = 0
+        for fmt in ALL_FORMATS:
+            LS = [200, 201, 400, 401] if fmt in ("stockholm", "pfam") else [60, 61, 120, 121]
+            for bi, bn in enumerate(BN if not quick else [BN[(k + j) % 6] for j in range(3)]):
+                Ls = LS if not quick else [LS[(k + bi) % 4]]
+                for L in Ls:
+                    abc = ("text", "amino", "dna", "rna", "text")[(k + bi) % 5]
+                    a = self.gen_growth(rng, fmt, abc, quick, n=bn, L=L)
+                    stats["boundary_grid"] = stats.get("boundary_grid", 0) + 1
+                    stats["nseq_max"] = max(stats["nseq_max"], a.n); stats["alen_max"] = max(stats["alen_max"], a.alen)
+                    if a.alen > 200: stats["multi_block"] += 1
+                    out.append({"name": "bnd-%s-%s-n%d-L%d" % (fmt, abc, bn, L), "dup": False, "ops": ["rt fmt=%s abc=%s " % (fmt, abc) + " ".join(aln_fields(a))]})
+            k += 1
+        # INSIDE the region of the known finding first-mention-order (sparse #=GS kinds without weights, #=GR tags first used by a later sequence):
+        # the re-read alignment must be EXACTLY the first-mention permutation of the original (`first_mention`, the python mirror of the Lean
+        # specification stoSeqOrder / stoGrOrder); anything else is an unkeyed violation, the permutation itself is reported under the known key
+        for i in range(120 if quick else 2500):
+            fmt = ("stockholm", "pfam")[i % 2]
+            abc = rng.choice(["text", "text", "amino", "dna", "rna"])
+            a = self.gen_growth(rng, fmt, abc, quick, n=rng.choice([2, 3, 4, 5, 8, 16, 17, 18, 33]), L=rng.choice([1, 7, 60, 200, 201, 401]), avoid=False)
+            stats["mention"] = stats.get("mention", 0) + 1
+            out.append({"name": "mention%d-%s-%s" % (i, fmt, abc), "dup": False, "ops": ["rt fmt=%s abc=%s " % (fmt, abc) + " ".join(aln_fields(a))]})
         # zero columns (esl-reformat --nogap on an all-gap alignment hands the writers alen = 0): outside the round-trip property, but no writer may
         # fail or raise (fc170bb: text-mode Clustal zero-malloc); bytes and the reader's verdict are compared with the model, every format, text + digital
         for i in range(40 if quick else 400):
@@ -509,7 +555,13 @@ class C03(Prop):
             if t.get("chk") != "ok" or t.get("val") != "ok": return Failure("monitor", "re-read alignment not well formed chk=%s val=%s (%s)" % (t.get("chk"), t.get("val"), what))
             if t.get("rd2") != "eof": return Failure("monitor", "second read after the written alignment returned %s (%s)" % (t.get("rd2"), what))
             uniq_forced = bool(case.get("dup")) and fmt in ("stockholm", "pfam")       # names get a "<seq#>|" prefix: rewritten bytes and names differ by design
-            if t.get("rw") != "same" and not uniq_forced: return Failure("monitor", "re-writing the re-read alignment gives different bytes (%s)" % what)
+            # Stockholm/Pfam: the reader numbers sequences and unparsed #=GR tags in order of first mention; where that is not the order of the
+            # alignment (known finding first-mention-order) the specification is "re-read = that permutation of the original", checked below
+            mention = None
+            if fmt in ("stockholm", "pfam") and not uniq_forced and dumps:
+                m0 = parse_dump(dumps[0]); mp = self.first_mention(m0)
+                if mp != m0: mention = mp
+            if t.get("rw") != "same" and not uniq_forced and mention is None: return Failure("monitor", "re-writing the re-read alignment gives different bytes (%s)" % what)
             # esl_msafile_GuessFileFormat documents one way to fail on well-formed PHYLIP: "can't guess format: it's consistent w/ both phylip,
             # phylips" (eslEAMBIGUOUS from esl_msafile_phylip_CheckFileFormat). The harness asks the guesser for its message (awhy=).
             ambiguous_phylip = fmt in ("phylip", "phylips") and t.get("awhy") == "ambiguous"
@@ -541,13 +593,52 @@ class C03(Prop):
                 com2 = [x for x in m2.get("com", "").split(",") if x and x != warn]
                 if com2: m2["com"] = ",".join(com2)
                 else: m2.pop("com", None)
-            f = self.compare_msa(fmt, abc, m, m2, nw)
-            if f: return Failure("monitor", "%s (%s)" % (f, what), detail={"orig": dumps[0][:1500], "reread": dumps[1][:1500]})
+            if mention is not None:
+                f = self.compare_msa(fmt, abc, mention, m2, nw)
+                if f: return Failure("monitor", "re-read alignment is not the first-mention permutation of the original: %s (%s)" % (f, what),
+                                     detail={"orig": dumps[0][:1500], "reread": dumps[1][:1500]})
+            else:
+                f = self.compare_msa(fmt, abc, m, m2, nw)
+                if f: return Failure("monitor", "%s (%s)" % (f, what), detail={"orig": dumps[0][:1500], "reread": dumps[1][:1500]})
             if auto_ok and t.get("afmt") == fmt and t.get("ard") == "ok" and t.get("asame") != "yes":
                 return Failure("monitor", "autodetected read differs from declared read (%s)" % what)
             if auto_ok and t.get("ard") != "ok" and fmt != "a2m":
                 return Failure("monitor", "autodetected read of library-written output returned %s (%s)" % (t.get("ard"), what))
+            if mention is not None and case.get("report_mention"):
+                # everything else held; what remains is the known finding itself: order changed, so write(read(write m)) != write m.  Reported by the
+                # corpus witnesses only (the engine stops after 50 failures); the generated "mention" cases demand the exact permutation silently
+                return Failure("monitor", "Stockholm re-read in first-mention order (exactly the specified permutation) (%s)" % what, key="C03:stockholm:first-mention-order")
         return None
+
+    @staticmethod
+    def first_mention(m):
+        """python mirror of the Lean specification (Msafile/StoFirstMention.lean: stoSeqOrder, stoGrOrder, stoMention): the alignment the
+        Stockholm reader returns for the written form of dump `m` - sequences in order of first mention (#=GS WT, AC, DE, unparsed #=GS tags
+        kind by kind, then the rows), unparsed #=GR tags in order of first mention in the first block"""
+        n = int(m["n"])
+        sp = lambda v: v.split(",")
+        gs = [(x.split(":", 1)[0], sp(x.split(":", 1)[1])) for x in m["gs"].split("/")] if m.get("gs") else []
+        gr = [(x.split(":", 1)[0], sp(x.split(":", 1)[1])) for x in m["gr"].split("/")] if m.get("gr") else []
+        kinds = []
+        if m.get("hasw") == "1": kinds.append(["x"] * n)
+        for k in ("sqacc", "sqdesc"):
+            if m.get(k): kinds.append(sp(m[k]))
+        kinds += [v for _, v in gs]
+        order = []
+        for v in kinds:
+            order += [i for i in range(n) if i < len(v) and v[i] != "~"]
+        order = list(dict.fromkeys(order + list(range(n))))
+        torder = []
+        for i in range(n):
+            torder += [k for k, (_, v) in enumerate(gr) if i < len(v) and v[i] != "~"]
+        torder = list(dict.fromkeys(torder + list(range(len(gr)))))
+        pm = lambda v: ",".join(sp(v)[o] for o in order)
+        out = dict(m)
+        for k in ("nm", "sq", "w", "sqacc", "sqdesc", "ss", "sa", "pp"):
+            if m.get(k) and len(sp(m[k])) == n: out[k] = pm(m[k])
+        if gs: out["gs"] = "/".join(t + ":" + ",".join(v[o] for o in order) for t, v in gs)
+        if gr: out["gr"] = "/".join(gr[k][0] + ":" + ",".join(gr[k][1][o] for o in order) for k in torder)
+        return out
 
     def compare_msa(self, fmt, abc, m, m2, namewidth=10):
         if m["n"] != m2["n"]: return "number of sequences changed %s -> %s" % (m["n"], m2["n"])
